@@ -234,6 +234,36 @@ pub fn c09(g: &mut Gen) {
                 Tol::Loose, &format!("dense-x{}/learn-early-stop", depth), true);
         }
     }
+    // feedback blocks whose inner layers carry dropout: one block per inner layer kind (dense, convolution,
+    // deconvolution), two loops, a dense layer behind it; the block's own flag propagation must set and clear
+    // every inner flag
+    for kind in 0..3usize {
+        let (input, inner, count): (Shape, Vec<InnerSpec>, usize) = match kind {
+            0 => {
+                let mut d = dense_spec(g, &cfg, 3, 3, "tanh", true);
+                if let InnerSpec::Dense { dropout, .. } = &mut d { *dropout = Some(0.5); }
+                (Shape::Single(3), vec![d], 3)
+            }
+            1 => {
+                let ks = vec![weights(g, &Shape::Triple(1, 3, 3), 0.4)];
+                (Shape::Triple(1, 3, 3), vec![InnerSpec::Conv { filters: 1, act: "tanh".into(), k: (3, 3), s: (1, 1), p: (1, 1), d: (1, 1), dropout: Some(0.5), ks }], 9)
+            }
+            _ => {
+                let ks = vec![weights(g, &Shape::Triple(1, 3, 3), 0.4)];
+                (Shape::Triple(1, 3, 3), vec![InnerSpec::Deconv { filters: 1, act: "tanh".into(), k: (3, 3), s: (1, 1), p: (1, 1), dropout: Some(0.5), ks }], 9)
+            }
+        };
+        let c = ArchCfg { dropout: false, ..cfg.clone() };
+        let builds = vec![Build::Feedback { inner, loops: 2, inskips: false, outskips: false, acc: "mean".into() },
+            Build::Layer(dense_spec(g, &c, count, 2, "tanh", true))];
+        let net = NetSpec { input: input.clone(), builds, skipacc: "add".into(), loopacc: "mean".into(), opt: Some(OptSpec::Sgd(0.05, None)), obj: "mse".into(), clamp: None };
+        let sh = if kind == 0 { Sh::Flat(2) } else { Sh::Flat(2) };
+        let s = samples_tok(g, &net, &sh, 3);
+        let v = samples_tok(g, &net, &sh, 2);
+        g.push(format!("net {} learn 3 {} 1 2 {} 5 2 2 0", net.token(), s, v), Tol::Loose, &format!("block-kind{}/learn-with-validation", kind), true);
+        g.push(format!("net {} learn 3 {} 0 2 2 0", net.token(), s), Tol::Loose, &format!("block-kind{}/learn", kind), true);
+        g.push(format!("net {} validate 3 {} {} 1", net.token(), s, hx(0.1)), Tol::Tight, &format!("block-kind{}/validate-while-training", kind), true);
+    }
     for _ in 0..g.n(40, 800) {
         let (mut net, out) = random_net(g, &cfg);
         net.opt = Some(random_opt(g));
@@ -471,6 +501,28 @@ pub fn c16(g: &mut Gen) {
         if *acc == "add" {
             let t = target_for(g, &out, "mse");
             g.push(format!("net {} backward {} {}", net.token(), qt(&x), qt(&t)), Tol::Tight, "skip-gradient/flat-to-spatial", true);
+        }
+    }
+    // spatial source and spatial target (the rank-3 arms of the accumulation primitives): a stack of
+    // shape-preserving convolutions (c filters, 3x3, padding 1) with every accumulation and several skips
+    for acc in ACCS.iter() {
+        for (ci, seq) in [vec![(0usize, 1usize)], vec![(0, 2)], vec![(1, 2)], vec![(0, 1), (1, 2)], vec![(1, 1)]].iter().enumerate() {
+            if !g.ctx.thorough() && *acc != "add" && *acc != "subtract" && ci % 2 == 1 { continue; }
+            let c = 1 + ci % 2;
+            let mut builds = Vec::new();
+            for _ in 0..3 {
+                let ks: Vec<Tensor> = (0..c).map(|_| weights(g, &Shape::Triple(c, 3, 3), 0.4)).collect();
+                builds.push(Build::Layer(InnerSpec::Conv { filters: c, act: g.rng().pick(&["tanh", "sigmoid", "linear"]).to_string(), k: (3, 3), s: (1, 1), p: (1, 1), d: (1, 1), dropout: None, ks }));
+            }
+            builds.push(Build::Layer(dense_spec(g, &cfg, c * 3 * 4, 2, "tanh", true)));
+            for (a, b) in seq { builds.push(Build::Connect(*a, *b)); }
+            let net = NetSpec { input: Shape::Triple(c, 3, 4), builds, skipacc: acc.to_string(), loopacc: "mean".into(), opt: None, obj: "mse".into(), clamp: None };
+            let x = input_for(g, &net.input);
+            g.push(format!("net {} predict {}", net.token(), qt(&x)), Tol::Tight, &format!("spatial-to-spatial/{}", acc), true);
+            if *acc == "add" {
+                let t = target_for(g, &Sh::Flat(2), "mse");
+                g.push(format!("net {} backward {} {}", net.token(), qt(&x), qt(&t)), Tol::Tight, "skip-gradient/spatial-to-spatial", true);
+            }
         }
     }
     // different element counts are refused
